@@ -412,6 +412,11 @@ func genRestore(r *rand.Rand, sc *Scenario) {
 			sc.Steps = append(sc.Steps, Step{At: t + 1, Act: "transfer", N: []int{-1}})
 		}
 		rt := t + 2 + r.Intn(3)
+		if r.Intn(3) == 0 {
+			// a membership change taken up in the instant of the restore is still uncommitted:
+			// the restore has to be refused and must leave the calls in flight alone
+			sc.Steps = append(sc.Steps, Step{At: rt - r.Intn(2), Act: "member", S: pick(r, "addvoter", "addnonvoter", "demote", "remove"), N: []int{r.Intn(p.N())}})
+		}
 		// writes dispatched in the very instant of the restore are in flight when it is taken up
 		sc.Steps = append(sc.Steps, Step{At: rt, Act: "burst", N: []int{2 + r.Intn(6)}}, Step{At: rt, Act: "restore", V: []float64{float64(r.Intn(5))}}, Step{At: t + 3 + r.Intn(5), Act: "burst", N: []int{r.Intn(5)}})
 		t += 2*p.HeartbeatMs + r.Intn(3*p.HeartbeatMs)
